@@ -261,6 +261,8 @@ pub struct Case {
     /// unmutated output of a dust-dds encoder (or accepted by the decoder as is)
     pub valid: bool,
     pub kinds: Vec<&'static str>,
+    /// the model value a valid xtypes sample was serialized from
+    pub orig: Option<model::Val>,
 }
 
 fn disc_of(dec: Decoder) -> Option<Disc> {
@@ -290,6 +292,7 @@ struct Seed {
     bytes: Vec<u8>,
     label: &'static str,
     kinds: Vec<&'static str>,
+    orig: Option<model::Val>,
 }
 
 /// Grow the first suitable sequence inside `v` to `target` elements (calibration of the allocation
@@ -307,7 +310,7 @@ fn inflate(t: &Ty, v: &mut model::Val, g: &mut Gen, target: usize, want_complex:
                 return false;
             }
             let mut nodes = 0usize;
-            while xs.len() < target && nodes < 300_000 {
+            while xs.len() < target && nodes < 60_000 {
                 let x = g.value(elem);
                 nodes += model::val_nodes(&x);
                 xs.push(x);
@@ -344,6 +347,7 @@ fn valid_seed(ctx: &BlockCtx, idx: u64, r: &mut Rng, agg: &mut Agg, big: bool) -
                 bytes: vm.bytes,
                 label: "valid",
                 kinds: vm.kinds,
+                orig: None,
             })
         }
         Decoder::Participant | Decoder::Writer | Decoder::Reader | Decoder::Topic => {
@@ -354,6 +358,7 @@ fn valid_seed(ctx: &BlockCtx, idx: u64, r: &mut Rng, agg: &mut Agg, big: bool) -
                         bytes: b,
                         label: "valid",
                         kinds: vec![],
+                        orig: None,
                     });
                 }
                 agg.stat("own_pl_not_accepted", 1);
@@ -362,6 +367,7 @@ fn valid_seed(ctx: &BlockCtx, idx: u64, r: &mut Rng, agg: &mut Agg, big: bool) -
                 bytes: own,
                 label: "wellformed_own",
                 kinds: vec![],
+                orig: None,
             })
         }
         Decoder::TlRequest | Decoder::TlReply => {
@@ -376,6 +382,7 @@ fn valid_seed(ctx: &BlockCtx, idx: u64, r: &mut Rng, agg: &mut Agg, big: bool) -
                     bytes: b,
                     label: "valid",
                     kinds: vec![],
+                    orig: None,
                 }),
                 _ => {
                     agg.stat("seed_skipped_serializer", 1);
@@ -390,24 +397,26 @@ fn valid_seed(ctx: &BlockCtx, idx: u64, r: &mut Rng, agg: &mut Agg, big: bool) -
                 let mut g = Gen::new(Rng::new(r.next_u64()), GenCfg::full());
                 let mut v = g.value(ty);
                 if big {
-                    let target = *r.pick(&[300usize, 3000, 30000]);
+                    let target = *r.pick(&[300usize, 1000, 3000, 10000]);
                     if !inflate(ty, &mut v, &mut g, target, true, 0) && !inflate(ty, &mut v, &mut g, target, false, 0) {
                         return None;
                     }
                 }
                 let d = dustglue::build_data(dt, ty, &v).ok()?;
-                match r.below(4) {
+                let b = match r.below(4) {
                     0 => serialize_cdr1_le(&d).ok(),
                     1 => serialize_cdr1_be(&d).ok(),
                     2 => serialize_cdr2_le(&d).ok(),
                     _ => serialize_cdr2_be(&d).ok(),
-                }
+                }?;
+                Some((b, v))
             });
             match res {
-                Ok(Some(b)) => Some(Seed {
+                Ok(Some((b, v))) => Some(Seed {
                     bytes: b,
                     label: "valid",
                     kinds: vec![],
+                    orig: Some(v),
                 }),
                 _ => {
                     agg.stat("seed_skipped_serializer", 1);
@@ -537,6 +546,7 @@ fn deep_nesting(ctx: &BlockCtx, idx: u64, r: &mut Rng, agg: &mut Agg) -> Option<
                 class: format!("deep_nesting={}", depth_bucket(depth)),
                 valid: false,
                 kinds: vec![],
+                orig: None,
             })
         }
         Decoder::Writer | Decoder::Reader | Decoder::Topic => {
@@ -568,6 +578,7 @@ fn deep_nesting(ctx: &BlockCtx, idx: u64, r: &mut Rng, agg: &mut Agg) -> Option<
                 class: format!("deep_nesting={}", depth_bucket(depth)),
                 valid: false,
                 kinds: vec![],
+                orig: None,
             })
         }
         _ => None,
@@ -594,6 +605,7 @@ pub fn make_case(cfg: &Cfg, ctx: &BlockCtx, idx: u64, agg: &mut Agg) -> Case {
             class: "random".into(),
             valid: false,
             kinds: vec![],
+            orig: None,
         };
     }
     if roll < 18 {
@@ -602,6 +614,7 @@ pub fn make_case(cfg: &Cfg, ctx: &BlockCtx, idx: u64, agg: &mut Agg) -> Case {
             class: "random_prefixed".into(),
             valid: false,
             kinds: vec![],
+            orig: None,
         };
     }
     if (24..27).contains(&roll) {
@@ -613,6 +626,7 @@ pub fn make_case(cfg: &Cfg, ctx: &BlockCtx, idx: u64, agg: &mut Agg) -> Case {
                 class: "valid_flood".into(),
                 valid: true,
                 kinds: vec![],
+                orig: None,
             };
         }
         // (a chain that overflows the stack costs a process: keep those to a few per shard)
@@ -622,7 +636,7 @@ pub fn make_case(cfg: &Cfg, ctx: &BlockCtx, idx: u64, agg: &mut Agg) -> Case {
             }
         }
     }
-    let big = (27..29).contains(&roll);
+    let big = roll == 27 && r.chance(0.6);
     let seed = match valid_seed(ctx, idx, &mut r, agg, big) {
         Some(s) => s,
         None => {
@@ -631,6 +645,7 @@ pub fn make_case(cfg: &Cfg, ctx: &BlockCtx, idx: u64, agg: &mut Agg) -> Case {
                 class: "random_prefixed".into(),
                 valid: false,
                 kinds: vec![],
+                orig: None,
             };
         }
     };
@@ -640,6 +655,7 @@ pub fn make_case(cfg: &Cfg, ctx: &BlockCtx, idx: u64, agg: &mut Agg) -> Case {
             class: if big && seed.label == "valid" { "valid_big".into() } else { seed.label.into() },
             valid: seed.label == "valid",
             kinds: seed.kinds,
+            orig: seed.orig,
         };
     }
     let one = |r: &mut Rng, b: &[u8]| -> mutate::Mutated {
@@ -660,6 +676,7 @@ pub fn make_case(cfg: &Cfg, ctx: &BlockCtx, idx: u64, agg: &mut Agg) -> Case {
             class: "double".into(),
             valid: false,
             kinds: seed.kinds,
+            orig: None,
         };
     }
     Case {
@@ -667,6 +684,7 @@ pub fn make_case(cfg: &Cfg, ctx: &BlockCtx, idx: u64, agg: &mut Agg) -> Case {
         class: m1.class,
         valid: false,
         kinds: seed.kinds,
+        orig: None,
     }
 }
 
@@ -983,8 +1001,37 @@ pub fn exec_case(
     agg.maxstat("alloc_total_max", run.stats.total as i128);
     agg.maxstat("alloc_single_max", run.stats.max_single as i128);
     agg.maxstat("alloc_peak_live_max", run.stats.peak_live as i128);
-    if case.valid && matches!(run.ret, Some(Ret::Ok { .. })) {
+    // A sample written by dust-dds' serializer that its deserializer reads back as a *different*
+    // value is not a calibration point for the allocation bound (mis-decoded lengths allocate
+    // arbitrary amounts); the round trip itself is C09's subject.
+    let mut faithful = true;
+    let safe_to_repeat = run.cap.is_none() && run.stats.total < (256 << 20);
+    if case.valid && dec == Decoder::Xtypes && matches!(run.ret, Some(Ret::Ok { .. })) && !safe_to_repeat {
+        faithful = false;
+    }
+    if case.valid && dec == Decoder::Xtypes && matches!(run.ret, Some(Ret::Ok { .. })) && safe_to_repeat {
+        if let (Some(c), Some(orig), Some(dt)) = (ctx, &case.orig, dt) {
+            if let Some(ty) = &c.ty {
+                let same = quiet(|| {
+                    dust_dds::verif_hooks::deserializer::deserialize_top_level_type(dt, input)
+                        .ok()
+                        .and_then(|d| dustglue::read_data(ty, &d).ok())
+                        .map(|v| v == *orig)
+                        .unwrap_or(false)
+                })
+                .unwrap_or(false);
+                if !same {
+                    faithful = false;
+                    agg.stat("valid_samples_read_back_differently", 1);
+                }
+            }
+        }
+    }
+    if case.valid && faithful && matches!(run.ret, Some(Ret::Ok { .. })) {
         agg.stat("valid_inputs_decoded_ok", 1);
+        if run.stats.over {
+            agg.stat("valid_faithful_inputs_over_bound", 1);
+        }
         let over = run.stats.total as i128 - (cfg.k as i128) * input.len() as i128;
         agg.maxstat("valid_alloc_minus_k_len_max", over);
         agg.maxstat(&format!("valid_alloc_minus_k_len_max.{}", dec.name()), over);
@@ -1304,6 +1351,7 @@ fn replay_one(
         class,
         valid: false,
         kinds: vec![],
+        orig: None,
     };
     exec_case(cfg, ann, pool, out, agg, st, Some(&ctx), dec, ctx.dt, idx, &case, false);
     agg.flush(out);
